@@ -27,14 +27,16 @@ core.ensure_env()
 
 from unytsim import evidence, minimise, runner  # noqa: E402
 
+# quick tier: a FIXED number of runs (what an idle 16-core machine does in about a minute), so that what a
+# quick check explores does not depend on how busy the machine is; quick_budget is only a safety cap.
 PROFILES = {
-    "C12": {"level": "exploration", "quick_runs": 3000, "quick_budget": 60, "thorough_budget": 900,
+    "C12": {"level": "exploration", "quick_runs": 1800, "quick_budget": 420, "thorough_budget": 900,
             "selftest_quick": 48, "selftest_thorough": 256, "timeout": 120},
-    "C13": {"level": "exploration", "quick_runs": 3000, "quick_budget": 75, "thorough_budget": 900,
+    "C13": {"level": "exploration", "quick_runs": 1500, "quick_budget": 420, "thorough_budget": 900,
             "selftest_quick": 48, "selftest_thorough": 256, "timeout": 120},
-    "C18": {"level": "fault_enumeration", "quick_runs": 12000, "quick_budget": 75, "thorough_budget": 900,
+    "C18": {"level": "fault_enumeration", "quick_runs": 12000, "quick_budget": 420, "thorough_budget": 900,
             "selftest_quick": 48, "selftest_thorough": 256, "timeout": 120},
-    "C11": {"level": "exploration", "quick_runs": 7000, "quick_budget": 75, "thorough_budget": 900,
+    "C11": {"level": "exploration", "quick_runs": 7000, "quick_budget": 420, "thorough_budget": 900,
             "selftest_quick": 48, "selftest_thorough": 256, "timeout": 120},
 }
 
@@ -251,7 +253,7 @@ def cmd_check(tier, prop):
         else:
             idxs = list(range(total))
         sweep_specs = [{"prop": prop, "seed": seed, "run": 10_000_000 + i, "sweep": i} for i in idxs]
-        _, nr2 = runner.run_batch(sweep_specs, timeout=prof["timeout"], budget_s=(40 if tier == "quick" else 3600),
+        _, nr2 = runner.run_batch(sweep_specs, timeout=prof["timeout"], budget_s=(240 if tier == "quick" else 3600),
                                   on_result=on_result)
         not_run += nr2
         log(f"{prop} sweep: {len(idxs) - nr2} of {total} systematic cases run")
